@@ -38,42 +38,57 @@ Section Loc.
   (** whitespace still pending at the boundary after the items: the line end of the last definition *)
   Definition slack_after (its : list item) (n : nat) : nat := match its with [] => n | _ => SL cr end.
 
-  Lemma rest_top_items_c : forall its c ctx, wf_items ctx its -> rest_top F cr c ->
+  Lemma rest_top_items_c : forall its c ctx, wf_items ctx its -> rest_top F cr c -> first_not_signal its ->
     (SL cr + length (print_items cr its ++ c) + 3 <= F)%nat -> rest_top F cr (print_items cr its ++ c).
   Proof.
-    intros its c ctx Hw Hc HF. destruct its as [|[g d] its]; [exact Hc|].
-    destruct Hw as (Hg & (Hd & _) & _). cbn [print_items] in *.
+    intros its c ctx Hw Hc Hfs HF. destruct its as [|[g d] its]; [exact Hc|].
+    destruct Hw as (Hg & (Hd & _) & _). cbn [print_items first_not_signal] in *.
     repeat rewrite <- app_assoc in *. exists g, (print_def cr d ++ print_items cr its ++ c).
     split; [reflexivity|]. split; [exact Hg|]. right.
     destruct (print_def_head cr Hcr d (print_items cr its ++ c) Hd) as (kw & ch & r & E & Hk & Hch & Hnc & Hl & Hns).
     exists kw, ch, r. rewrite !app_length in HF. split; [exact E|]. split; [exact Hk|]. split; [exact Hch|]. split; [exact Hnc|].
-    split; [lia|exact Hns].
+    split; [lia|exact (Hns Hfs)].
+  Qed.
+
+  Lemma rest_ok_items_c : forall its c ctx, wf_items ctx its -> rest_top F cr c ->
+    (SL cr + length (print_items cr its ++ c) + 3 <= F)%nat -> rest_ok F cr (print_items cr its ++ c).
+  Proof.
+    intros its c ctx Hw Hc HF. destruct its as [|[g d] its]; [apply rest_top_ok; exact Hc|].
+    destruct Hw as (Hg & (Hd & _) & _). cbn [print_items] in *.
+    repeat rewrite <- app_assoc in *. exists g, (print_def cr d ++ print_items cr its ++ c).
+    split; [reflexivity|]. split; [exact Hg|]. right.
+    destruct (print_def_head cr Hcr d (print_items cr its ++ c) Hd) as (kw & ch & r & E & Hk & Hch & Hnc & Hl & _).
+    exists kw, ch, r. rewrite !app_length in HF. split; [exact E|]. split; [exact Hk|]. split; [exact Hch|]. split; [exact Hnc|]. lia.
   Qed.
 
   (** the loop over a well-formed prefix [its] followed by [c] reaches the boundary before [c] *)
-  Lemma parse_loop_prefix : forall c its f defs ctx n line off st,
-    ctx_agrees ctx defs -> wf_items ctx its -> (its <> [] -> rest_top F cr c) ->
+  Lemma parse_loop_prefix : forall c its f defs ctx pm n line off st,
+    ctx_agrees ctx defs -> wf_items ctx its -> sg_placed pm (map snd its) -> (its <> [] -> rest_top F cr c) ->
     (n + length (print_items cr its) + length c + 4 <= F)%nat ->
     Ready il id F n line off (print_items cr its ++ c) st -> (length its <= f)%nat ->
     exists st', the_loop f defs st = the_loop (f - length its) (defs ++ elab_items cr ctx line off its) st'
                 /\ Ready il id F (slack_after its n) (line + lines_of its) (off + blen (print_items cr its)) c st'.
   Proof.
-    intros c. induction its as [|[g d] its IH]; intros f defs ctx n line off st Hag Hw Hc0 HF HR Hf.
+    intros c. induction its as [|[g d] its IH]; intros f defs ctx pm n line off st Hag Hw Hsg Hc0 HF HR Hf.
     - exists st. cbn [print_items elab_items length app lines_of slack_after] in *. rewrite app_nil_r, Nat.sub_0_r, blen_nil, !Z.add_0_r.
       split; [reflexivity|exact HR].
     - assert (Hc : rest_top F cr c) by (apply Hc0; discriminate).
       destruct Hw as (Hg & Hd & Hw'). cbn [print_items length] in *. repeat rewrite <- app_assoc in HR.
       do 2 rewrite app_length in HF. destruct f as [|f]; [lia|].
       pose proof (print_def_len_ge cr Hcr d (proj1 Hd)) as Hlen.
-      assert (Hok : rest_top F cr (print_items cr its ++ c)) by (apply (rest_top_items_c its c _ Hw' Hc); rewrite app_length; lia).
+      cbn [map snd sg_placed] in Hsg. destruct Hsg as (_ & Hsg').
+      assert (Hok : rest_ok F cr (print_items cr its ++ c)) by (apply (rest_ok_items_c its c _ Hw' Hc); rewrite app_length; lia).
+      assert (Htop : is_message d = true -> rest_top F cr (print_items cr its ++ c)).
+      { intros Hm. apply (rest_top_items_c its c _ Hw' Hc); [|rewrite app_length; lia]. destruct its as [|[g' d'] its']; [exact I|].
+        cbn [map snd sg_placed first_not_signal] in *. destruct Hsg' as (H & _). exact (H Hm). }
       pose proof (HR g (print_def cr d ++ print_items cr its ++ c) eq_refl Hg) as HR0.
-      destruct (step_def il id F cr Hcr d (print_items cr its ++ c) defs ctx (n + length g) (line + nl_count g) (off + blen g) Hag Hd Hok)
+      destruct (step_def il id F cr Hcr d (print_items cr its ++ c) defs ctx (n + length g) (line + nl_count g) (off + blen g) Hag Hd Hok Htop)
         with (st := st) as (kw & st1 & st2 & Ep & Ek & Ed & HR2); [rewrite app_length; lia|exact HR0|].
       cbn [parse_loop_with]. rewrite Ep. cbn [t_typ kwtok]. change (TIdent =? EOF) with false. cbv iota.
       unfold bind. rewrite Ek, Ed. cbn [elab_items].
-      destruct (IH f (defs ++ [elab_def_ctx cr ctx (line + nl_count g) (off + blen g) d]) (ctx_step ctx d) (SL cr)
+      destruct (IH f (defs ++ [elab_def_ctx cr ctx (line + nl_count g) (off + blen g) d]) (ctx_step ctx d) (is_message d) (SL cr)
                   (line + nl_count g + def_lines d) (off + blen g + blen (print_def cr d)) st2
-                  (ctx_agrees_step cr ctx defs _ _ d Hag) Hw' (fun _ => Hc) ltac:(lia) HR2 ltac:(lia))
+                  (ctx_agrees_step cr ctx defs _ _ d Hag) Hw' Hsg' (fun _ => Hc) ltac:(lia) HR2 ltac:(lia))
         as (st' & E & HR').
       exists st'. split.
       + rewrite E. cbn [Nat.sub]. rewrite <- app_assoc. reflexivity.
@@ -105,14 +120,14 @@ Proof.
 Qed.
 
 Theorem error_local_partial : forall il id cr its c pos k defs,
-  cr_ok cr -> wf_items [] its -> Forall byte c ->
+  cr_ok cr -> wf_items [] its -> sg_placed false (map snd its) -> Forall byte c ->
   (c = [] \/ exists kw ch r, c = kw ++ ch :: r /\ is_ident kw /\ ascii ch /\ idc ch = false
                             /\ bytes_eqb kw kw_signal = false) ->
   parse_bytes il id (print_items cr its ++ c) = Err pos k defs ->
   (exists more, defs = elaborate_file cr its ++ more)
   /\ blen (print_items cr its) <= p_offset pos <= blen (print_items cr its ++ c).
 Proof.
-  intros il id cr its c pos k defs Hcr Hw Hbc Hc H. unfold parse_bytes, parse in H.
+  intros il id cr its c pos k defs Hcr Hw Hsg Hbc Hc H. unfold parse_bytes, parse in H.
   set (T := print_items cr its) in *.
   set (F := fuel_for (T ++ c)) in *.
   assert (HFlen : F = (length T + length c + 4)%nat) by (unfold F, fuel_for; rewrite app_length; reflexivity).
@@ -134,7 +149,7 @@ Proof.
       + cbn [app]. destruct (print_def_head cr Hcr d (print_items cr its' ++ c) Hd) as (kw & ch & r & E & (c0 & t & -> & H0 & _) & _).
         rewrite <- app_assoc, E. cbn. apply (id0_ge c0 H0).
       + cbn. inversion Hg. apply blank_ascii. assumption. }
-  destruct (parse_loop_prefix il id F cr Hcr c its F [] [] 0 1 0 (p_init (T ++ c)) (fun n => eq_refl) Hw Hok ltac:(fold T; lia)) as (st' & E & HR);
+  destruct (parse_loop_prefix il id F cr Hcr c its F [] [] false 0 1 0 (p_init (T ++ c)) (fun n => eq_refl) Hw Hsg Hok ltac:(fold T; lia)) as (st' & E & HR);
     [apply ready_init; [exact Hh|lia]|lia|].
   rewrite E in H. cbn [app] in H. fold (elaborate_file cr its) in H. rewrite Z.add_0_l in HR. fold T in HR.
   pose proof (ready_here il id F _ _ _ _ _ HR) as (HR1 & HR2).
